@@ -422,6 +422,8 @@ class LogTarget(object):
                     import threading
                     self.lock = threading.Lock()
             raise Weird()
+        if kind == "surrogate":
+            raise FileNotFoundError(2, "caf\udce9.txt")       # text that json / msgpack cannot encode (os.fsdecode of a non-utf-8 file name)
         if kind == "custom":
             raise CustomError("custom failure", 7)
         if kind in ("nasty", "nasty-plain", "str-nonstring", "repr-raises"):
